@@ -31,13 +31,16 @@ struct World {
     /// range id the window lives in and the window's offset in that range
     rid: u32,
     rbase: usize,
+    /// slice layer: the slice handed to the entry points starts this many bytes before the window
+    /// (so that the offsets passed in are large and may straddle multiples of the page size)
+    back: usize,
 }
 
 impl World {
     fn vs(&self) -> VolatileSlice<'static, ()> {
         match self.layer {
             // SAFETY: the arena outlives the run.
-            Layer::Slice => unsafe { VolatileSlice::new(self.win, WIN) },
+            Layer::Slice => unsafe { VolatileSlice::new(self.win.sub(self.back), self.back + WIN) },
             Layer::Region => {
                 let r = self.gm.as_ref().unwrap().find_region(GuestAddress(GBASE)).unwrap();
                 // SAFETY: the region outlives every use in this run.
@@ -174,6 +177,8 @@ fn local_aligned_for(entry: usize, la: usize, presink: usize, n: usize, writer: 
 
 fn do_write(w: &World, goff: usize, s: &Side, val: &[u8]) -> Result<(), String> {
     let n = val.len();
+    // offset of the target inside the slice handed to the slice-layer entry points
+    let so = goff + w.back;
     // SAFETY: an adjacent buffer lies in the arena's data pages next to the window.
     let buf = match s.adj {
         Some(a) => unsafe { LocalBuf::at(a, n, |i| val[i]) },
@@ -181,35 +186,35 @@ fn do_write(w: &World, goff: usize, s: &Side, val: &[u8]) -> Result<(), String> 
     };
     match s.entry {
         0 | 1 | 2 | 6 | 7 | 8 => match w.layer {
-            Layer::Slice => bytes_write(&w.vs(), goff, s.entry, val, &buf),
+            Layer::Slice => bytes_write(&w.vs(), so, s.entry, val, &buf),
             Layer::Region => bytes_write(w.region(), MemoryRegionAddress(goff as u64), s.entry, val, &buf),
             Layer::Gm => bytes_write(w.gm.as_ref().unwrap(), GuestAddress(GBASE + goff as u64), s.entry, val, &buf),
         },
         3 => {
-            w.vs().subslice(goff, n).map_err(es)?.copy_from(buf.as_ref());
+            w.vs().subslice(so, n).map_err(es)?.copy_from(buf.as_ref());
             Ok(())
         }
         4 => {
-            w.vs().get_array_ref::<u8>(goff, n).map_err(es)?.copy_from(buf.as_ref());
+            w.vs().get_array_ref::<u8>(so, n).map_err(es)?.copy_from(buf.as_ref());
             Ok(())
         }
         5 => {
-            let mut t = w.vs().subslice(goff, n).map_err(es)?;
+            let mut t = w.vs().subslice(so, n).map_err(es)?;
             let mut src = buf.as_ref();
             src.read_volatile(&mut t).map_err(es).and_then(|k| if k == n { Ok(()) } else { Err(format!("short {}", k)) })
         }
         9 => {
             let v = w.vs();
             match n {
-                1 => v.get_ref::<u8>(goff).map_err(es)?.store(mk::<u8>(val)),
-                2 => v.get_ref::<u16>(goff).map_err(es)?.store(mk::<u16>(val)),
-                4 => v.get_ref::<u32>(goff).map_err(es)?.store(mk::<u32>(val)),
-                _ => v.get_ref::<u64>(goff).map_err(es)?.store(mk::<u64>(val)),
+                1 => v.get_ref::<u8>(so).map_err(es)?.store(mk::<u8>(val)),
+                2 => v.get_ref::<u16>(so).map_err(es)?.store(mk::<u16>(val)),
+                4 => v.get_ref::<u32>(so).map_err(es)?.store(mk::<u32>(val)),
+                _ => v.get_ref::<u64>(so).map_err(es)?.store(mk::<u64>(val)),
             }
             Ok(())
         }
         10 => {
-            let mut t = w.vs().subslice(goff, n).map_err(es)?;
+            let mut t = w.vs().subslice(so, n).map_err(es)?;
             // the cursor starts inside a larger stream; the payload sits at the buffer's alignment
             let mut c = Cursor::new(buf.as_ref());
             c.read_volatile(&mut t).map_err(es).and_then(|k| if k == n { Ok(()) } else { Err(format!("short {}", k)) })
@@ -235,6 +240,7 @@ fn do_write(w: &World, goff: usize, s: &Side, val: &[u8]) -> Result<(), String> 
 
 fn do_read(w: &World, goff: usize, s: &Side, n: usize) -> Result<Vec<u8>, String> {
     use crate::world::bytes_of;
+    let so = goff + w.back;
     // SAFETY: as in do_write.
     let mut buf = match s.adj {
         Some(a) => unsafe { LocalBuf::at(a, n, |_| 0xEE) },
@@ -242,12 +248,12 @@ fn do_read(w: &World, goff: usize, s: &Side, n: usize) -> Result<Vec<u8>, String
     };
     match s.entry {
         0 | 1 | 2 | 6 | 7 | 8 => match w.layer {
-            Layer::Slice => bytes_read(&w.vs(), goff, s.entry, n, &mut buf, s.presink, s.spare),
+            Layer::Slice => bytes_read(&w.vs(), so, s.entry, n, &mut buf, s.presink, s.spare),
             Layer::Region => bytes_read(w.region(), MemoryRegionAddress(goff as u64), s.entry, n, &mut buf, s.presink, s.spare),
             Layer::Gm => bytes_read(w.gm.as_ref().unwrap(), GuestAddress(GBASE + goff as u64), s.entry, n, &mut buf, s.presink, s.spare),
         },
         3 => {
-            let k = w.vs().subslice(goff, n).map_err(es)?.copy_to(buf.as_mut());
+            let k = w.vs().subslice(so, n).map_err(es)?.copy_to(buf.as_mut());
             if k == n {
                 Ok(buf.as_ref().to_vec())
             } else {
@@ -255,7 +261,7 @@ fn do_read(w: &World, goff: usize, s: &Side, n: usize) -> Result<Vec<u8>, String
             }
         }
         4 => {
-            let k = w.vs().get_array_ref::<u8>(goff, n).map_err(es)?.copy_to(buf.as_mut());
+            let k = w.vs().get_array_ref::<u8>(so, n).map_err(es)?.copy_to(buf.as_mut());
             if k == n {
                 Ok(buf.as_ref().to_vec())
             } else {
@@ -263,7 +269,7 @@ fn do_read(w: &World, goff: usize, s: &Side, n: usize) -> Result<Vec<u8>, String
             }
         }
         5 => {
-            let t = w.vs().subslice(goff, n).map_err(es)?;
+            let t = w.vs().subslice(so, n).map_err(es)?;
             let mut dst = buf.as_mut();
             dst.write_volatile(&t).map_err(es)?;
             Ok(buf.as_ref().to_vec())
@@ -271,14 +277,14 @@ fn do_read(w: &World, goff: usize, s: &Side, n: usize) -> Result<Vec<u8>, String
         9 => {
             let v = w.vs();
             Ok(match n {
-                1 => bytes_of(&v.get_ref::<u8>(goff).map_err(es)?.load()),
-                2 => bytes_of(&v.get_ref::<u16>(goff).map_err(es)?.load()),
-                4 => bytes_of(&v.get_ref::<u32>(goff).map_err(es)?.load()),
-                _ => bytes_of(&v.get_ref::<u64>(goff).map_err(es)?.load()),
+                1 => bytes_of(&v.get_ref::<u8>(so).map_err(es)?.load()),
+                2 => bytes_of(&v.get_ref::<u16>(so).map_err(es)?.load()),
+                4 => bytes_of(&v.get_ref::<u32>(so).map_err(es)?.load()),
+                _ => bytes_of(&v.get_ref::<u64>(so).map_err(es)?.load()),
             })
         }
         10 => {
-            let t = w.vs().subslice(goff, n).map_err(es)?;
+            let t = w.vs().subslice(so, n).map_err(es)?;
             let mut c = Cursor::new(buf.as_mut());
             c.write_volatile(&t).map_err(es)?;
             Ok(buf.as_ref().to_vec())
@@ -475,7 +481,7 @@ impl Scenario for Tear {
         // Some((writer side?, after the target?))
         let adjacency: Option<(bool, bool)> = if layer == Layer::Slice && pow2(n) && cx().a(6) == 0 { Some((cx().a(2) == 0, cx().a(2) == 0)) } else { None };
         // world
-        let (world, base_res) = match layer {
+        let (mut world, base_res) = match layer {
             Layer::Slice if adjacency.is_some() => {
                 // the window alone is guest memory; the bytes right before and after it are the
                 // caller's own (a host buffer may touch the guest range it is copied to or from)
@@ -483,7 +489,7 @@ impl Scenario for Tear {
                 // SAFETY: inside the arena's data pages.
                 let win = unsafe { arena.data().add(512) };
                 cx().add_range(win as usize, WIN, 0, true);
-                (World { layer, arena: Some(arena), gm: None, win, rid: 0, rbase: 0 }, 0)
+                (World { layer, arena: Some(arena), gm: None, win, rid: 0, rbase: 0, back: 0 }, 0)
             }
             Layer::Slice => {
                 let arena = Arena::get(2);
@@ -491,13 +497,13 @@ impl Scenario for Tear {
                 let win = arena.place(WIN, res, cx().a(2) == 0);
                 cx().add_range(arena.data() as usize, arena.data_len(), 0, true);
                 let rbase = win as usize - arena.data() as usize;
-                (World { layer, arena: Some(arena), gm: None, win, rid: 0, rbase }, res)
+                (World { layer, arena: Some(arena), gm: None, win, rid: 0, rbase, back: 0 }, res)
             }
             _ => {
                 let gm = GuestMemoryMmap::<()>::from_ranges(&[(GuestAddress(GBASE), 4096)]).expect("guest memory");
                 let win = gm.get_host_address(GuestAddress(GBASE)).unwrap();
                 cx().add_range(win as usize, 4096, 1, true);
-                (World { layer, arena: None, gm: Some(gm), win, rid: 1, rbase: 0 }, 0)
+                (World { layer, arena: None, gm: Some(gm), win, rid: 1, rbase: 0, back: 0 }, 0)
             }
         };
         let _ = base_res;
@@ -547,6 +553,20 @@ impl Scenario for Tear {
             side.adj = Some(a);
             side.la = a % 8;
             cx().count("probe.local_buffer_touches_the_guest_target");
+        }
+        if layer == Layer::Slice && adjacency.is_none() {
+            // how far the slice may start before the window inside the arena's data pages
+            let avail = world.win as usize - world.arena.as_ref().unwrap().data() as usize;
+            let want = match cx().a(4) {
+                0 => 0,
+                // the offset of some byte of the target other than the first is a multiple of 4096
+                1 | 2 => 4096usize.saturating_sub(goff + 1 + cx().a((n as u32).saturating_sub(1).max(1)) as usize),
+                _ => cx().a(4200) as usize,
+            };
+            world.back = want.min(avail);
+            if (world.back + goff) / 4096 != (world.back + goff + n - 1) / 4096 {
+                cx().count("probe.slice_offset_of_the_target_straddles_a_page_multiple");
+            }
         }
         let host = world.win as usize + goff;
         let guest_aligned = pow2(n) && host % n == 0;
@@ -745,7 +765,7 @@ impl Scenario for Tear {
             cx().mode = Mode::Actor;
             let o4 = (4 - world.win as usize % 4) % 4;
             match world.layer {
-                Layer::Slice => ordering_probe(&world.vs(), o4, "slice"),
+                Layer::Slice => ordering_probe(&world.vs(), world.back + o4, "slice"),
                 Layer::Region => ordering_probe(world.region(), MemoryRegionAddress(o4 as u64), "region"),
                 Layer::Gm => ordering_probe(world.gm.as_ref().unwrap(), GuestAddress(GBASE + o4 as u64), "guest-memory"),
             }
